@@ -47,7 +47,7 @@ def replay_duality(shape, moore, plus_one, values):
     import omega.games.gr1 as gr1
     from vlib import bdd2smt, family, xplay
     aut, params = family.build(shape, moore, plus_one)
-    c01.concrete_member(aut, {p: bool(values[p]) for p in params})
+    c01.concrete_member(aut, {p: values[p] for p in params})
     ex = family.Explicit(aut, bdd2smt.Exporter(aut.bdd))
     E, S, goals, holds, truth = c01.concrete_tables(aut, ex)
     zS, _, _ = gr1.solve_streett_game(aut)
@@ -105,7 +105,7 @@ def duality(shape, moore, plus_one):
             out.append(core.res(name, 'holds', queries={r: 1}, solver_s=dt, sample=sample,
                                 nontrivial=nontrivial, functions=FUNCS))
         elif r == 'sat':
-            vals = family.model_params(sol.model(), params, bits)
+            vals = family.model_params(sol.model(), params, bits, aut.vars)
             diffs = replay_duality(shape, moore, plus_one, vals)
             if diffs:
                 out.append(core.res(
@@ -165,7 +165,7 @@ def trivial_set(shape, moore, plus_one):
             out.append(core.res(name, 'holds', queries={r: 1}, solver_s=dt, sample=sample,
                                 nontrivial=True, functions=FUNCS))
         elif r == 'sat':
-            vals = family.model_params(sol.model(), params, exp.bits)
+            vals = family.model_params(sol.model(), params, exp.bits, aut.vars)
             # replay: real function on the member vs concrete references
             aut_c, _ = family.build(shape, moore, plus_one)
             c01.concrete_member(aut_c, vals)
@@ -214,7 +214,7 @@ def run(tier, seed, t0, only=None):
                                   backend=be, timeout=6000,
                                   name=f'{be}:rabin:{shape}:moore={moore}:plus_one={plus_one}'
                                        + ('' if part is None else f':state{part}')))
-    dshapes = ['B11a', 'S11', 'S11h2', 'S11g2', 'B02'] if tier == 'quick' else ['B11a', 'B11b', 'B11c21', 'B11c12', 'S11', 'B02', 'I11a', 'B21', 'B12']
+    dshapes = ['B11a', 'S11', 'S11h2', 'S11g2', 'B02', 'T11b'] if tier == 'quick' else ['B11a', 'B11b', 'B11c21', 'B11c12', 'S11', 'S11h2', 'S11g2', 'B02', 'T11b', 'T11']
     for shape in dshapes:
         for moore, plus_one in MODES:
             tasks.append(dict(mod='vlib.props.c04', fn='duality', kw=dict(shape=shape, moore=moore, plus_one=plus_one),
